@@ -125,11 +125,11 @@ def rule_share(ctx):
            "a client stream is built without the client's throttle (or with a copy of it)", construct="share:client")
     # clone() semantics: fresh objects, same limits
     cl = p.method("StreamThrottle", "clone")
-    ok = any(isinstance(r, ast.Return) and isinstance(r.value, ast.Call) and {k.arg: src(k.value) for k in r.value.keywords} == {"read": "self.read.clone()", "write": "self.write.clone()"} for r in walk_no_nested(cl))
+    ok = any(isinstance(r, ast.Return) and isinstance(deep_expand(p, r.value, cl), ast.Call) and {k.arg: src(k.value) for k in deep_expand(p, r.value, cl).keywords} == {"read": "self.read.clone()", "write": "self.write.clone()"} for r in walk_no_nested(cl))
     ctx.ob("C15.SHARE", cl, "StreamThrottle.clone() clones both directions into fresh Throttle objects", ok, "StreamThrottle.clone does not clone read->read, write->write", construct="clone:stream")
     tc = p.method("Throttle", "clone")
-    ok = any(isinstance(r, ast.Return) and isinstance(r.value, ast.Call) and last_attr(r.value.func) == "Throttle" and {k.arg: src(k.value) for k in r.value.keywords} == {"limit": "self._limit", "reset_rate": "self.reset_rate"}
-             for r in walk_no_nested(tc))
+    ok = any(isinstance(r, ast.Return) and isinstance(deep_expand(p, r.value, tc), ast.Call) and last_attr(deep_expand(p, r.value, tc).func) == "Throttle"
+             and {k.arg: src(k.value) for k in deep_expand(p, r.value, tc).keywords} == {"limit": "self._limit", "reset_rate": "self.reset_rate"} for r in walk_no_nested(tc))
     ctx.ob("C15.SHARE", tc, "Throttle.clone() returns a fresh Throttle with the same limit and reset rate", ok, "Throttle.clone does not return a fresh object with the same limit", construct="clone:throttle")
 
 
